@@ -8,6 +8,7 @@
 mod c02;
 mod c03;
 mod c04;
+mod c09;
 mod c16;
 mod util;
 
@@ -24,6 +25,7 @@ fn main() {
         ("search", "c02") => c02::search(&args[3..]),
         ("search", "c03") => c03::search(&args[3..]),
         ("search", "c16") => c16::search(&args[3..]),
+        ("search", "c09") => c09::search(&args[3..]),
         ("replay", path) => {
             let text = match std::fs::read_to_string(path) {
                 Ok(t) => t,
@@ -38,6 +40,7 @@ fn main() {
                 "c02-panic-ops" => c02::replay(&text),
                 "c03-op" => c03::replay(&text),
                 "kani-values" => c16::replay(&text),
+                "c09-literal" => c09::replay(&text),
                 "c16-circuit" => {
                     println!("{text}");
                     3
